@@ -39,6 +39,7 @@ CASES = [
      "\t\t\tcase ErrOffsetMetadataTooLarge, ErrInvalidCommitOffsetSize:\n\t\t\t\t// nothing we can do about this, just tell the user and carry on\n\t\t\t\tpom.handleError(err)\n\t\t\tcase ErrOffsetsLoadInProgress:\n\t\t\t\t// nothing wrong but we didn't commit, we'll get it next time round\n",
      "\t\t\tcase ErrOffsetsLoadInProgress:\n\t\t\tcase ErrInvalidCommitOffsetSize, ErrOffsetMetadataTooLarge:\n\t\t\t\tpom.handleError(err)\n", "reordered case clauses and case constants"),
     ("C06", "mark_offset", H, "offset_manager.go", "MarkOffset", "\tif offset > pom.offset {\n\t\tpom.offset = offset\n", "\t// a comment\n\n\tif (offset) > (pom.offset) { // another\n\n\t\tpom.offset = (offset)\n", "layout, comments and redundant parentheses only"),
+    ("C06", "update_committed", H, "offset_manager.go", "updateCommitted", "pom.offset == offset && pom.metadata == metadata", "metadata == pom.metadata && offset == pom.offset", "mirrored string and integer equality tests, swapped conjuncts"),
     # ---------------------------------------------------------------- C16
     ("C16", "is_at_least", S, "utils.go", "IsAtLeast", "if v.version[i] > other.version[i] {\n\t\t\treturn true", "if v.version[i] > other.version[i] {\n\t\t\treturn false", "flipped result"),
     ("C16", "is_at_least", S, "utils.go", "IsAtLeast", "\t}\n\treturn true\n", "\t}\n\treturn false\n", "equal versions not at least"),
@@ -102,6 +103,8 @@ CASES = [
     ("C19", "is_err_no_controller", H, "admin.go", "isErrNoController",
      "\tcase *TopicError:\n\t\treturn e.Err == ErrNotController\n\tcase *TopicPartitionError:\n\t\treturn e.Err == ErrNotController\n",
      "\tcase *TopicPartitionError:\n\t\treturn e.Err == ErrNotController\n\tcase *TopicError:\n\t\treturn ErrNotController == e.Err\n", "reordered clauses, swapped operands"),
+    ("C19", "retry_on_error", H, "admin.go", "retryOnError", "if err == nil || !retryable(err) {", "if nil == err || !retryable(err) {", "mirrored error comparison"),
+    ("C19", "depends_on_specific_node", H, "admin.go", "dependsOnSpecificNode", "resource.Name != \"\"", "\"\" != resource.Name", "mirrored string comparison"),
     # ---------------------------------------------------------------- C03
     ("C03", "choose_starting_offset", S, "consumer.go", "chooseStartingOffset", "offset >= oldestOffset && offset <= newestOffset", "offset > oldestOffset && offset <= newestOffset", "comparison >= to >"),
     ("C03", "choose_starting_offset", S, "consumer.go", "chooseStartingOffset", "case offset == OffsetNewest:\n\t\tchild.offset = newestOffset", "case offset == OffsetNewest:\n\t\tchild.offset = oldestOffset", "wrong offset chosen"),
